@@ -37,8 +37,12 @@ func teardownKind() kindDef {
 		name:     "pppoe-teardown",
 		cfgs:     []string{"radius", "no-radius"},
 		prefixes: func(string) []string { return []string{"CREATED", "AUTH", "ADDR", "EST"} },
-		paths:    func(string, string) []string { return []string{"PADT", "ADMIN", "IDLE", "DISCONNECT", "SHUTDOWN"} },
-		run:      runTeardown,
+		// RESTART-x: the client starts over (the data path creates a second session for the same MAC, as handlePADR
+		// does, and brings it up to the same prefix), then x ends every session the client was ever given
+		paths: func(string, string) []string {
+			return []string{"PADT", "ADMIN", "IDLE", "DISCONNECT", "SHUTDOWN", "RESTART-PADT", "RESTART-ADMIN", "RESTART-SHUTDOWN"}
+		},
+		run: runTeardown,
 	}
 }
 
@@ -62,6 +66,7 @@ type tdWorld struct {
 	rc    *bngradius.Client
 	base  mapDump
 	a, b  *tdSub
+	vic   []*tdSub // every session the victim's MAC was ever given
 	padts int
 	viols []viol
 }
@@ -171,6 +176,7 @@ func runTeardown(e *kenv, k kase) (res result) {
 	w.base = e.dump()
 	w.a = &tdSub{name: "victim", mac: net.HardwareAddr{2, 0, 0, 0, 0, 0x0a}}
 	w.establish(w.a, k.Prefix)
+	w.vic = append(w.vic, w.a)
 	h := []string{"session-entry"}
 	if w.a.s.Authenticated && w.rc != nil {
 		h = append(h, "acct-start")
@@ -198,7 +204,13 @@ func runTeardown(e *kenv, k kase) (res result) {
 			d1, d1v, n1 = w.dump(), w.dumpVictim(), w.nrec()
 			continue
 		}
-		if contains(k.Terms[1:i+1], "SHUTDOWN") {
+		if strings.HasPrefix(t, "RESTART-") {
+			// a new session life cycle of the same client: the release oracle applies, the comparison restarts here
+			w.checkReleased(site)
+			d1, d1v, n1 = w.dump(), w.dumpVictim(), w.nrec()
+			continue
+		}
+		if hasShutdown(k.Terms[1 : i+1]) {
 			// TerminateAll legitimately ends the bystander as well: only the victim's own state must be unchanged
 			if d2v := w.dumpVictim(); d2v != d1v {
 				w.add("second-termination-changes-state", site, "the victim's state after %s differs from its state after %s: %s", site, k.Terms[0], diff(d1v, d2v))
@@ -227,19 +239,36 @@ func (w *tdWorld) nrec() int {
 	return len(w.rs.records())
 }
 
+func hasShutdown(terms []string) bool {
+	return contains(terms, "SHUTDOWN") || contains(terms, "RESTART-SHUTDOWN")
+}
+
 func (w *tdWorld) terminate(path string) {
-	a := w.a
+	if rest, ok := strings.CutPrefix(path, "RESTART-"); ok {
+		w.a = &tdSub{name: w.a.name, mac: w.a.mac}
+		w.establish(w.a, w.k.Prefix)
+		w.vic = append(w.vic, w.a)
+		path = rest
+	}
 	switch path {
 	case "PADT": // the receive path looks the session up by id first
-		if s := w.sm.GetSession(a.s.ID); s != nil {
-			w.td.HandleClientPADT(s, a.mac, s.ID)
+		for _, a := range w.vic {
+			if s := w.sm.GetSession(a.s.ID); s != nil {
+				w.td.HandleClientPADT(s, a.mac, s.ID)
+			}
 		}
 	case "ADMIN":
-		w.td.TerminateByID(a.s.ID, "admin")
+		for _, a := range w.vic {
+			w.td.TerminateByID(a.s.ID, "admin")
+		}
 	case "IDLE": // a timer owner holds the *Session
-		w.td.TerminateSession(a.s, pppoe.TerminateCauseIdleTimeout, "")
+		for _, a := range w.vic {
+			w.td.TerminateSession(a.s, pppoe.TerminateCauseIdleTimeout, "")
+		}
 	case "DISCONNECT":
-		w.coa.HandleDisconnect(context.Background(), &bngradius.DisconnectRequest{SessionID: a.s.SessionID, Username: a.name})
+		for _, a := range w.vic {
+			w.coa.HandleDisconnect(context.Background(), &bngradius.DisconnectRequest{SessionID: a.s.SessionID, Username: a.name})
+		}
 	case "SHUTDOWN":
 		w.td.TerminateAll(pppoe.TerminateCauseNASReboot, "shutdown")
 	default:
@@ -248,12 +277,14 @@ func (w *tdWorld) terminate(path string) {
 }
 
 func (w *tdWorld) checkReleased(site string) {
-	shutdown := contains(w.k.Terms[:strings.Count(site, ";")+1], "SHUTDOWN")
+	shutdown := hasShutdown(w.k.Terms[:strings.Count(site, ";")+1])
 	avail, alloc := w.pool.VerifC16State()
-	if ip, ok := alloc[w.a.s.SessionID]; ok {
-		w.add("address-not-released", site, "the pool still has %s allocated to the victim's session", ip)
-	} else if w.a.addr != nil && !contains(avail, w.a.addr.String()) {
-		w.add("address-not-released", site, "%s is neither free nor allocated", w.a.addr)
+	for i, a := range w.vic {
+		if ip, ok := alloc[a.s.SessionID]; ok {
+			w.add("address-not-released", site, "the pool still has %s allocated to the victim's session (session #%d of %d the client was given)", ip, i+1, len(w.vic))
+		} else if a.addr != nil && !contains(avail, a.addr.String()) {
+			w.add("address-not-released", site, "%s is neither free nor allocated", a.addr)
+		}
 	}
 	if len(avail)+len(alloc) != pppoeTotal {
 		w.add("pool-conservation", site, "pool accounts for %d addresses, has %d (available=%v allocated=%v)", len(avail)+len(alloc), pppoeTotal, avail, alloc)
@@ -265,16 +296,21 @@ func (w *tdWorld) checkReleased(site string) {
 		}
 		seen[x] = true
 	}
-	if w.sm.GetSession(w.a.s.ID) != nil || w.sm.GetSessionByMAC(w.a.mac) != nil {
-		w.add("session-still-present", site, "the victim's session is still in the session manager")
+	for _, a := range w.vic {
+		if w.sm.GetSession(a.s.ID) == a.s || w.sm.GetSessionByMAC(a.mac) != nil {
+			w.add("session-still-present", site, "the victim's session %d is still in the session manager", a.s.ID)
+		}
 	}
 	live := 1
 	if shutdown {
 		live = 0
 	}
-	if w.a.addr != nil {
-		if x := w.natM.GetAllocation(w.a.addr); x != nil {
-			w.add("nat-not-removed", site, "nat.Manager still has %s -> %s:%d-%d", w.a.addr, x.PublicIP, x.PortStart, x.PortEnd)
+	for _, a := range w.vic {
+		if a.addr == nil {
+			continue
+		}
+		if x := w.natM.GetAllocation(a.addr); x != nil {
+			w.add("nat-not-removed", site, "nat.Manager still has %s -> %s:%d-%d", a.addr, x.PublicIP, x.PortStart, x.PortEnd)
 		}
 	}
 	if n := w.natM.GetAllocationCount(); n != live {
@@ -299,13 +335,15 @@ func (w *tdWorld) checkReleased(site string) {
 		}
 	}
 	if w.rs != nil {
-		starts, stops := w.rs.count(w.a.s.SessionID)
-		want := 0
-		if starts > 0 {
-			want = 1
-		}
-		if stops != want {
-			w.add("accounting-stop-count", site, "%d Accounting-Start and %d Accounting-Stop for the victim (want %d Stop): %s", starts, stops, want, w.rs.render())
+		for _, a := range w.vic {
+			starts, stops := w.rs.count(a.s.SessionID)
+			want := 0
+			if starts > 0 {
+				want = 1
+			}
+			if stops != want {
+				w.add("accounting-stop-count", site, "%d Accounting-Start and %d Accounting-Stop for the victim's session %s (want %d Stop): %s", starts, stops, a.s.SessionID, want, w.rs.render())
+			}
 		}
 		_, bstops := w.rs.count(w.b.s.SessionID)
 		if !shutdown && bstops != 0 || shutdown && bstops != 1 {
@@ -327,17 +365,20 @@ func (w *tdWorld) dump() string {
 		n++
 	}
 	// the victim's session object is included: a caller may still hold it
-	return "SESSIONS " + deepdump.Dump(w.sm, o) + "\nVICTIM " + deepdump.Dump(w.a.s, o) + fmt.Sprintf("\nPOOL free=%v allocated=%d", avail, n) +
+	return "SESSIONS " + deepdump.Dump(w.sm, o) + "\nVICTIM " + w.dumpVictim() + fmt.Sprintf("\nPOOL free=%v allocated=%d", avail, n) +
 		"\nNAT " + deepdump.Dump(w.natM, o) + "\nQOS " + deepdump.Dump(w.qosM, o) + "\nMAPS " + w.e.dump().render(w.base)
 }
 
 // dumpVictim: the victim's session object and its own accounting records.
 func (w *tdWorld) dumpVictim() string {
 	o := deepdump.Options{IgnoreTimes: true, SkipFields: pppSkip, SkipTypes: skipTypes}
-	d := deepdump.Dump(w.a.s, o)
-	if w.rs != nil {
-		st, sp := w.rs.count(w.a.s.SessionID)
-		d += fmt.Sprintf(" starts=%d stops=%d", st, sp)
+	d := ""
+	for _, a := range w.vic {
+		d += deepdump.Dump(a.s, o)
+		if w.rs != nil {
+			st, sp := w.rs.count(a.s.SessionID)
+			d += fmt.Sprintf(" starts=%d stops=%d;", st, sp)
+		}
 	}
 	return d
 }
@@ -346,7 +387,7 @@ func (w *tdWorld) dumpVictim() string {
 // victim's former address is among them and gets a NAT block.
 func (w *tdWorld) probe(site string) {
 	free := pppoeTotal - 1
-	if contains(w.k.Terms, "SHUTDOWN") {
+	if hasShutdown(w.k.Terms) {
 		free = pppoeTotal
 	}
 	got := map[string]int{}
@@ -368,7 +409,9 @@ func (w *tdWorld) probe(site string) {
 	if len(got) != free {
 		w.add("probe-conservation", site, "new sessions obtained %d distinct addresses, %d should be free: %v", len(got), free, got)
 	}
-	if w.a.addr != nil && got[w.a.addr.String()] == 0 {
-		w.add("probe-address-not-obtainable", site, "no new session was given the victim's former address %s: %v", w.a.addr, got)
+	for _, a := range w.vic {
+		if a.addr != nil && got[a.addr.String()] == 0 {
+			w.add("probe-address-not-obtainable", site, "no new session was given the victim's former address %s: %v", a.addr, got)
+		}
 	}
 }
